@@ -5,6 +5,9 @@ sys.path.insert(0, os.path.dirname(os.path.abspath(__file__)))
 import model, core
 
 
+THOROUGH_FEATURES = ["timing"]
+
+
 def main():
     ap = argparse.ArgumentParser()
     ap.add_argument("prop")
@@ -20,6 +23,27 @@ def main():
         ctx = core.Ctx(pid, a.tier, m, getattr(mod, "LEVEL", "other"))
         ctx.repo = a.repo
         mod.run(ctx)
+        if a.tier == "thorough":
+            # thorough = the same rules decided over every build configuration of the library that compiles offline:
+            # default features and `--features timing` (the `cli` feature only adds the binary's line editor).
+            for feats in THOROUGH_FEATURES:
+                m2 = model.load_model(a.repo, feats)
+                ctx2 = core.Ctx(pid, a.tier, m2, ctx.level)
+                ctx2.repo = a.repo
+                mod.run(ctx2)
+                have = {(o["rule"], o["key"]): o for o in ctx.obs}
+                for o in ctx2.obs:
+                    k = (o["rule"], o["key"])
+                    if k not in have or (have[k]["holds"] and not o["holds"]):
+                        o = dict(o)
+                        o["what"] = "[features=%s] %s" % (feats, o["what"])
+                        ctx.obs.append(o)
+                for k, v in ctx2.stats.items():
+                    ctx.stats["%s[%s]" % (k, feats)] = v
+                ctx.floor_failures += ["[features=%s] %s" % (feats, x) for x in ctx2.floor_failures]
+                ctx.rules |= ctx2.rules
+                ctx.extra_evals += len(ctx2.obs)
+                ctx.trusted.append("second configuration analysed: --features %s (%d function bodies)" % (feats, len(m2.fns)))
         if not ctx.obs:
             raise model.CheckError("no obligations produced")
         rc = core.finish(ctx, seed)
